@@ -225,6 +225,9 @@ func (h *H) doBuild(res *OpResult) {
 		return
 	}
 	h.prov = p
+	if v, e := p.Get(scopeType); e == nil {
+		h.rootScope, _ = v.(godi.Scope)
+	}
 	res.NewH = h.publish(&Handle{Kind: HProvider, Prov: p, Parent: -1, ByTask: res.Task, ByOp: res.GID})
 	h.built.Store(1)
 }
